@@ -160,6 +160,16 @@ type LFSServer struct {
 
 	Locks *LockTable
 
+	// AnyOrigin: serve the API and storage paths on every origin (C10).
+	AnyOrigin bool
+	// Pre, when set, sees every request first; a non-nil answer is final.
+	Pre func(rec *ReqRec) *Resp
+	// HrefOrigin picks the origin of an action href (default StorageOrigin
+	// for transfers, APIOrigin for verify).
+	HrefOrigin func(rel, oid string) string
+	// Authenticated sets "authenticated": true on batch objects.
+	Authenticated bool
+
 	// Suppress: fault kinds that are still drawn from the chooser but not
 	// applied (counterfactual runs for known-finding attribution).
 	Suppress map[string]bool
@@ -238,6 +248,21 @@ var oidRE = regexp.MustCompile(`^[0-9a-f]{64}$`)
 // Serve implements Handler for both origins.
 func (s *LFSServer) Serve(rec *ReqRec) *Resp {
 	origin := rec.Scheme + "://" + rec.Host
+	if s.Pre != nil {
+		if r := s.Pre(rec); r != nil {
+			return r
+		}
+	}
+	if s.AnyOrigin {
+		switch {
+		case strings.HasSuffix(rec.Path, "/objects/batch"):
+			origin = s.APIOrigin
+		case strings.HasPrefix(rec.Path, s.APIPrefix+"/"):
+			origin = s.APIOrigin
+		case strings.HasPrefix(rec.Path, "/objects/"):
+			origin = s.StorageOrigin
+		}
+	}
 	switch {
 	case origin == s.APIOrigin && rec.Path == s.APIPrefix+"/objects/batch":
 		rec.Kind = "batch"
@@ -276,11 +301,17 @@ func (s *LFSServer) newOffer(rel, oid string, size int64, batchSeq int, expired,
 	s.tokSeq++
 	tok := fmt.Sprintf("t%d", s.tokSeq)
 	o := &Offer{Token: tok, Oid: oid, Size: size, Rel: rel, IssuedAt: s.Now(), BatchSeq: batchSeq, Header: map[string]string{"X-Sim-Token": tok}}
+	so, ao := s.StorageOrigin, s.APIOrigin
+	if s.HrefOrigin != nil {
+		if h := s.HrefOrigin(rel, oid); h != "" {
+			so, ao = h, h
+		}
+	}
 	switch rel {
 	case "verify":
-		o.Href = s.APIOrigin + s.APIPrefix + "/verify/" + tok
+		o.Href = ao + s.APIPrefix + "/verify/" + tok
 	default:
-		o.Href = s.StorageOrigin + "/objects/" + oid
+		o.Href = so + "/objects/" + oid
 	}
 	if s.ActionAuth != nil {
 		if a := s.ActionAuth(rel, oid); a != "" {
@@ -395,7 +426,7 @@ func (s *LFSServer) serveBatch(rec *ReqRec) *Resp {
 		okey := "batch/" + ro.Oid
 		data, has := s.Store[ro.Oid]
 		mk := func(expired, soon bool) *BatchObj {
-			bo := &BatchObj{Oid: ro.Oid, Size: ro.Size, Actions: map[string]*BatchAct{}}
+			bo := &BatchObj{Oid: ro.Oid, Size: ro.Size, Actions: map[string]*BatchAct{}, Authenticated: s.Authenticated}
 			if op == "download" {
 				bo.Size = int64(len(data))
 				a, _ := s.newOffer("download", ro.Oid, bo.Size, len(s.Batches)-1, expired, soon)
